@@ -4,7 +4,7 @@ CHECK = {
         suite("rot", "c14", 400, 4000, stdin=True, args=["-suite", "rot"], timeout={"quick": 600, "thorough": 1800}),
         suite("ps", "c14", 800, 8000, stdin=True, args=["-suite", "ps"], timeout={"quick": 600, "thorough": 1800}),
         suite("start", "c14", 14, 400, stdin=True, args=["-suite", "start"], timeout={"quick": 600, "thorough": 1800}),
-        suite("snaps", "c14", 300, 3000, stdin=True, args=["-suite", "snaps"], timeout={"quick": 600, "thorough": 1800}),
+        suite("snaps", "c14", 360, 3600, stdin=True, args=["-suite", "snaps"], timeout={"quick": 600, "thorough": 1800}),
         suite("crash", "c14", 24, 240, stdin=True, args=["-suite", "crash"], timeout={"quick": 600, "thorough": 2400}),
     ],
     "search_seeds": {"quick": 3, "thorough": 2},
@@ -12,7 +12,8 @@ CHECK = {
     "lean_sources": ["ClusterVerif/Model/C14Source.lean", "ClusterVerif/Gen/C14.lean", "ClusterVerif/Model/C14.lean", "ClusterVerif/Spec/C14.lean", "ClusterVerif/Lemmas/C14.lean",
                      "ClusterVerif/Model/C14Crash.lean", "ClusterVerif/Spec/C14Crash.lean", "ClusterVerif/Lemmas/C14Crash.lean",
                      "ClusterVerif/Model/C14Start.lean", "ClusterVerif/Spec/C14Start.lean", "ClusterVerif/Lemmas/C14Start.lean",
-                     "ClusterVerif/Model/C14Snaps.lean", "ClusterVerif/Spec/C14Snaps.lean", "ClusterVerif/Lemmas/C14Snaps.lean"],
+                     "ClusterVerif/Model/C14Snaps.lean", "ClusterVerif/Spec/C14Snaps.lean", "ClusterVerif/Lemmas/C14Snaps.lean",
+                     "ClusterVerif/Model/C14Damage.lean", "ClusterVerif/Spec/C14Damage.lean", "ClusterVerif/Lemmas/C14Damage.lean"],
     "rule": "pins: (pinset of 0-40 generated pins over all types/options, prior content of the target, stream damage) through "
             "Marshal/Unmarshal, SnapshotSave/OfflineState, raft and crdt state-manager export/import (and a started Raft peer on some); "
             "rot: (retention, pre-existing folder set with gaps/outside the window, 1-14 clean/save/mkdir/reconfigure operations) on real folders; "
